@@ -5,8 +5,8 @@ EXTENDS HttpSess
 
 \* `res`, `ranNow` are outputs of the last step and `bad` is a ghost: hidden in the cover graph so
 \* that its nodes are the states of the session table proper
-CoverView == <<tab, nmint, slot>>
-MCView == <<tab, nmint, slot, tiewin, bad>>
+CoverView == <<tab, nmint, slot, store>>
+MCView == <<tab, nmint, slot, tiewin, store, bad>>
 
 \* reachability witnesses (each must be VIOLATED, otherwise the model is vacuous)
 NeverTimedOut   == ~(\E i \in Ids : tab[i].st = "dead" /\ res = <<>> /\ ranNow = 0)
@@ -15,6 +15,9 @@ NeverTieAdmit   == \A p \in Slots : ~slot[p].tie
 NeverParked     == \A i \in Ids : tab[i].pdel = 0
 NeverForeign    == \A c \in Range(res) : c.cls # "foreign"
 NeverStale      == \A c \in Range(res) : c.cls # "stale"
+\* a session is terminated while the store is in a fault mode / a POST is refused because Open fails
+NeverFaultDelete == ~(store # "up" /\ \E c \in Range(res) : c.m = "DELETE" /\ c.status = 204)
+NeverNoStream   == \A c \in Range(res) : c.status # 500
 NeverCbClosing  == ~(\E i \in Ids : tab[i].st = "closing" /\ \E p \in Slots : slot[p].id = i /\ slot[p].tie)
 
 \* behaviour generation: the history of harness steps in the harness' vocabulary
@@ -37,6 +40,7 @@ GenNext ==
   \/ \E i \in Ids : Close(i) /\ H(<<"Close", "", i, "">>)
   \/ \E d \in AdvSet : Advance(d) /\ H(<<"Advance", "", d, "">>)
   \/ \E d \in AdvSet : AdvanceTie(d) /\ H(<<"AdvanceTie", "", d, "">>)
+  \/ \E m \in StoreModes \cup {"up"} : SetStore(m) /\ H(<<"SetStore", m, 0, "">>)
   \/ \E i \in Ids : TimerFire(i) /\ UNCHANGED hist
   \/ \E i \in Ids : TimeoutCallback(i) /\ UNCHANGED hist
 GenSpec == GenInit /\ [][GenNext]_gvars
@@ -50,6 +54,7 @@ DeleteH(t, u) == Addressable(t) /\ Delete(t, u) /\ UNCHANGED hist
 EndPostH(p) == EndPost(p) /\ UNCHANGED hist
 CloseH(i) == Close(i) /\ UNCHANGED hist
 AdvanceH(d) == Advance(d) /\ UNCHANGED hist
+SetStoreH(m) == SetStore(m) /\ UNCHANGED hist
 AdvanceTieH(d) == AdvanceTie(d) /\ UNCHANGED hist
 TimerFireH(i) == TimerFire(i) /\ UNCHANGED hist
 TimeoutCallbackH(i) == TimeoutCallback(i) /\ UNCHANGED hist
@@ -66,6 +71,7 @@ MCCoverNext ==
   \/ \E p \in Slots : EndPostH(p)
   \/ \E i \in Ids : CloseH(i)
   \/ \E d \in AdvSet : AdvanceH(d)
+  \/ \E m \in StoreModes \cup {"up"} : SetStoreH(m)
 MCNext ==
   \/ \E b \in Bodies, t \in Targets, u \in Users : PostH(b, t, u)
   \/ \E t \in Targets, u \in Users : GetH(t, u)
@@ -73,6 +79,7 @@ MCNext ==
   \/ \E p \in Slots : EndPostH(p)
   \/ \E i \in Ids : CloseH(i)
   \/ \E d \in AdvSet : AdvanceH(d)
+  \/ \E m \in StoreModes \cup {"up"} : SetStoreH(m)
   \/ \E d \in AdvSet : AdvanceTieH(d)
   \/ \E i \in Ids : TimerFireH(i)
   \/ \E i \in Ids : TimeoutCallbackH(i)
